@@ -80,6 +80,7 @@ var (
 	shared   []templ.Component // Page(handle, items) per program: shared by all goroutines
 	bare     []templ.Component // Interp(items) per program
 	gallery  []templ.Component // Gallery(params) per variant
+	library  []templ.Component // library components created ONCE: Join, Raw, ComponentScript, once handle with a component
 	handles  []*templ.OnceHandle
 	renderID int64
 	hookN    int64
@@ -341,11 +342,12 @@ func renderHandler(c templ.Component) want {
 type job struct {
 	prog int
 	plan int
-	via  int // 0 Page into FaultWriter, 1 bare Interp into FaultWriter, 2 ToGoHTML, 3 buffered Handler, 4 Gallery variant `prog` into FaultWriter
+	// via 5: library component `prog` (created once, shared by all goroutines) rendered directly into a FaultWriter
+	via int // 0 Page into FaultWriter, 1 bare Interp into FaultWriter, 2 ToGoHTML, 3 buffered Handler, 4 Gallery variant `prog` into FaultWriter
 }
 
 func (j job) String() string {
-	return fmt.Sprintf("program %d via %s, writer plan %+v", j.prog, []string{"Page", "Interp", "ToGoHTML", "Handler", "Gallery"}[j.via], plans[j.plan])
+	return fmt.Sprintf("program %d via %s, writer plan %+v", j.prog, []string{"Page", "Interp", "ToGoHTML", "Handler", "Gallery", "Library"}[j.via], plans[j.plan])
 }
 
 func run(j job, slow bool) want {
@@ -358,8 +360,10 @@ func run(j job, slow bool) want {
 		return renderToGoHTML(shared[j.prog])
 	case 3:
 		return renderHandler(shared[j.prog])
-	default:
+	case 4:
 		return renderOnce(gallery[j.prog], plans[j.plan], slow)
+	default:
+		return renderOnce(library[j.prog], plans[j.plan], slow)
 	}
 }
 
@@ -370,6 +374,8 @@ func component(j job) templ.Component {
 		return bare[j.prog]
 	case 4:
 		return gallery[j.prog]
+	case 5:
+		return library[j.prog]
 	}
 	return shared[j.prog]
 }
@@ -401,6 +407,18 @@ func setup() {
 	for v := 0; v < galleryVariants; v++ {
 		gallery = append(gallery, Gallery(galleryParams(v)))
 	}
+	// library components of the root package, each created once and rendered by every goroutine; the per-render
+	// writer faults make some of those renders fail midway (in different parts of a Join)
+	onceWith := templ.NewOnceHandle(templ.WithComponent(templ.Raw("<i>once-with-component</i>")))
+	library = []templ.Component{
+		templ.Join(bare[0], bare[3], bare[5]),
+		templ.Join(templ.Raw("<header>"), bare[1], bare[7], templ.Raw("<footer>")), // bare[7] always fails
+		templ.Join(templ.Raw("<a>"), templ.Join(bare[4], templ.Raw("<b>")), gallery[0]),
+		templ.Raw("<raw>shared raw component</raw>"),
+		greet("shared", 7),
+		onceWith.Once(),
+		templ.JSONScript("shared-data", map[string]any{"k": []int{1, 2, 3}}),
+	}
 }
 
 func reference() map[job]want {
@@ -413,6 +431,15 @@ func reference() map[job]want {
 				}
 				j := job{p, pl, via}
 				ref[j] = run(j, false)
+			}
+		}
+	}
+	for v := range library {
+		for pl := range plans {
+			j := job{v, pl, 5}
+			ref[j] = run(j, false)
+			if again := run(j, false); again != ref[j] {
+				vhlib.Fatal("the solo reference of %s is not deterministic: %q vs %q", j, ref[j].sink, again.sink)
 			}
 		}
 	}
@@ -559,9 +586,12 @@ func main() {
 					j.via, j.plan = 2, 0
 				case 1:
 					j.via, j.plan = 3, 0
-				case 2, 3, 4, 5:
+				case 2, 3, 4:
 					// neighbouring goroutines render different variants at the same time
 					j.via, j.prog = 4, (g+m)%galleryVariants
+				case 5, 6, 7:
+					// one shared library component value, many goroutines, some renders failing midway
+					j.via, j.prog = 5, rng.Intn(len(library))
 				}
 				var got want
 				if d != nil && j.via != 2 && j.via != 3 {
